@@ -57,7 +57,7 @@ def groups(tier, rng):
                     body = body.replace(b"MAIL FROM:<long@x>", b"EHLO long.example.x").replace(b"MAIL FROM:<s@x>", b"EHLO s.example")
                     body = body[:-2 - (len(body) - n)] + b"\r\n" if len(body) != n else body
                 parts = pre + [body] + post
-                c = g.Conv(dict(maxline=lim))
+                c = g.Conv(dict(maxline=lim, debug=rng.choice([0, 0, 1])))
                 for p_ in parts:
                     c.add(p_)
                 lines.append(c.case(seg="line") + "\tTAG=cmdonly")
@@ -120,7 +120,7 @@ def groups(tier, rng):
             hist.append(c.case(seg="one") + "\tTAG=cmdonly")
     for lim in (40, 2000):
         for total in (lim * 3, 9000):
-            c = g.Conv(dict(maxline=lim))
+            c = g.Conv(dict(maxline=lim, debug=rng.choice([0, 1])))
             c.add(b"EHLO x\r\n"); c.add(b"MAIL FROM:<long@x>" + b"y" * total)
             endless.append(c.case(seg=rng.choice(["one", "rand"]), rng=rng) + "\tTAG=cmdonly")
     alpha = [b"\x00", b"\r", b"\n", b" ", b"A", b":", b"\xff"]
